@@ -1,7 +1,7 @@
 (* Proofs/PipelineEx.v -- C01: worked examples (non-vacuity) and the witnesses of the refuted clause. *)
 From Coq Require Import ZArith QArith Lqa List Bool.
 From Verif.Lib Require Import QRound PyNum.
-From Verif.Model Require Import Result Credit Pipeline PipelineAgree.
+From Verif.Model Require Import Result Credit Pipeline PipelineTables.
 From Verif.Proofs Require Import Credit Pipeline PipelineWF PipelineShape.
 Import ListNotations.
 Open Scope Q_scope.
